@@ -20,6 +20,67 @@ fn null_free(mut c: RollCase) -> RollCase {
     c
 }
 
+/// Integer element types at their edges: a series of small non-negative integers in which one
+/// element is the type minimum (or, mirrored, the type maximum among non-positive values), and unsigned
+/// element types. Every window sum stays inside the element type, so sum / mean / extrema / moments
+/// are defined by the textbook formula; an implementation that negates or squares in the element type
+/// overflows here.
+fn integer_edges(c: &RollCase, st: Stat, obs: &mut Obs) -> CheckResult {
+    use tvh::model::expect_series;
+    use tvh::rollcheck::compare_series;
+    use tvh::sut;
+    let len = c.x.len();
+    let small: Vec<i64> = c.x.iter().map(|v| (v.unwrap_or(0.0).abs() as i64) % 1000).collect();
+    let variant = (len + c.w + c.mp.unwrap_or(1)) % 4;
+    let p = if len == 0 { 0 } else { (c.w * 7 + len) % len };
+    let name = format!("edge:ts_{}{}", if c.tin.nullable() { "v" } else { "" }, st.name());
+    let err = |e: String| Fail { sig: format!("{}:out-path", name), detail: e };
+    let valid = c.tin.nullable();
+    let (logical, got): (Series, Series) = match variant {
+        0 | 1 => {
+            let data: Vec<i32> = small
+                .iter()
+                .enumerate()
+                .map(|(i, v)| match (variant, i == p) {
+                    (0, true) => i32::MIN,
+                    (0, false) => *v as i32,
+                    (_, true) => i32::MAX,
+                    (_, false) => -(*v as i32),
+                })
+                .collect();
+            let r: Vec<f64> = if valid {
+                sut::via_vec(len, c.out_buf, |buf| sut::roll_valid::<Vec<i32>, i32, Vec<f64>, f64>(&data, st, c.w, c.mp, buf)).map_err(err)?
+            } else {
+                sut::via_vec(len, c.out_buf, |buf| sut::roll_plain::<Vec<i32>, i32, Vec<f64>, f64>(&data, st, c.w, c.mp, buf)).map_err(err)?
+            };
+            (data.iter().map(|v| Some(*v as f64)).collect(), tvh::conv::normalize(r))
+        },
+        2 => {
+            let data: Vec<u64> = small.iter().map(|v| *v as u64).collect();
+            let r: Vec<f64> = if valid {
+                sut::via_vec(len, c.out_buf, |buf| sut::roll_valid::<Vec<u64>, u64, Vec<f64>, f64>(&data, st, c.w, c.mp, buf)).map_err(err)?
+            } else {
+                sut::via_vec(len, c.out_buf, |buf| sut::roll_plain::<Vec<u64>, u64, Vec<f64>, f64>(&data, st, c.w, c.mp, buf)).map_err(err)?
+            };
+            (data.iter().map(|v| Some(*v as f64)).collect(), tvh::conv::normalize(r))
+        },
+        _ => {
+            let data: Vec<usize> = small.iter().map(|v| *v as usize).collect();
+            let r: Vec<f64> = if valid {
+                sut::via_vec(len, c.out_buf, |buf| sut::roll_valid::<Vec<usize>, usize, Vec<f64>, f64>(&data, st, c.w, c.mp, buf)).map_err(err)?
+            } else {
+                sut::via_vec(len, c.out_buf, |buf| sut::roll_plain::<Vec<usize>, usize, Vec<f64>, f64>(&data, st, c.w, c.mp, buf)).map_err(err)?
+            };
+            (data.iter().map(|v| Some(*v as f64)).collect(), tvh::conv::normalize(r))
+        },
+    };
+    let exp = expect_series(st, &logical, c.w, c.mp);
+    compare_series(&name, &got, &exp, OutT::F64, len, obs).map_err(|f| Fail { sig: format!("{}:{}", name, f.sig), detail: format!("{} on {} elements: {}", name, ["i32 with i32::MIN", "i32 with i32::MAX", "u64", "usize"][variant], f.detail) })?;
+    obs.class(["i32_with_type_min", "i32_with_type_max", "u64_elements", "usize_elements"][variant]);
+    obs.set_nontrivial(len > c.w);
+    Ok(())
+}
+
 fn main() {
     let mut p = Property::new(
         "C01",
@@ -58,6 +119,16 @@ fn main() {
             600,
             |_| roll_case_long(PLAIN_INS, 20000, 1).prop_map(null_free),
             move |c: &RollCase, obs: &mut Obs| check1(c, st, false, obs),
+        ));
+    }
+    const EDGE_INS: &[InT] = &[InT::I32, InT::OptI32];
+    for st in [Stat::Sum, Stat::Mean, Stat::Std, Stat::Wma] {
+        p.add(sub(
+            &format!("integer_edges:{}", st.name()),
+            3000,
+            100000,
+            |tier| roll_case_of(tier, EDGE_INS, &[OutT::F64], 40, 200, 1, EXACT_CLASSES),
+            move |c: &RollCase, obs: &mut Obs| integer_edges(c, st, obs),
         ));
     }
     p.add(sub(
